@@ -629,6 +629,102 @@ def c17(ctx):
     ctx.exhaustive = False
 
 
+# ---------------------------------------------------------------------------------------------
+# Jcs: C05
+
+def corrupt_jcs(ev):
+    ev = json.loads(json.dumps(ev))
+    if not ev.get("out"):
+        return None
+    ev["out"][len(ev["out"]) // 2] += 1
+    return ev
+
+
+def c05(ctx):
+    ctx.rule = ("Jcs.tla defines Canon(value) over tagged JSON values (strings = code points, objects keep their spelled "
+                "member order): UTF-16 code-unit member order computed with integer arithmetic, escaping table, "
+                "ECMA-262 number layout over (shortest digits, exponent). TLC enumerates the universe (9 member names "
+                "incl. the empty name and the pair U+1F600 / U+FB33 whose UTF-16 order differs from code-point order, 10 "
+                "strings covering every escape class, 15 numbers at every layout boundary incl. both zeros, the "
+                "smallest subnormal and the largest double, literals; one- and two-member objects in every spelled "
+                "order, every order of 504 name triples, arrays; nested containers at the thorough tier), checks "
+                "OrderInsensitive / Utf16Order / LayoutBoundaries, and prints Canon(v); the harness spells every value "
+                "in 5 surface styles (literal / \\uXXXX upper / lower / short escapes, white space, five decimal "
+                "spellings per number) and demands byte equality with Canon(v), a fixed point and the same JSON value. "
+                "Then random values (29 code-point classes, depth <= 3) and sampled doubles (random bit patterns, "
+                "neighbours of 1e21 / 1e-6 / 1e-7 by Nextafter, subnormals, the largest doubles) are canonicalized by "
+                "the library and TLC validates every recorded output against Canon (JcsTrace).")
+    ctx.assumptions = ["the shortest round-trip DIGITS of a double are taken from strconv (digit source only; the layout "
+                       "is the specification's); the harness refuses a case whose digits are not in shortest form",
+                       "'all finite doubles' and 'all strings' are sampled beyond the enumerated universe, not exhausted",
+                       "inputs are objects or arrays (the canonicalizer's domain), member names are distinct (I-JSON)"]
+    depth = 1 if ctx.tier == "quick" else 2
+    _, summ = ctx.tlc_pipe("MC_Jcs.tla", "MC_Jcs.cfg", ["jcs-replay"], overrides={"Depth": depth}, workers=8, timeout=3000,
+                           label="value universe depth %d x 5 spellings" % depth)
+    ctx.cov["evaluations"] += summ["extra"]["spellings"]
+
+    def wrong(rec):
+        rec["canon"] = rec["canon"] + [32]
+
+    ctx.negctl_replay(["jcs-replay"], summ["_first_edge"], wrong)
+    n = 6000 if ctx.tier == "quick" else 150000
+    validate_trace(ctx, "jcs", ["-n", str(n)], "JcsTrace.tla", "JcsTrace.cfg", "jcs_trace.ndjson", histories=n,
+                   key_of=lambda ev: json.dumps(ev.get("v"), sort_keys=True)[:120], corrupt=corrupt_jcs)
+
+
+# ---------------------------------------------------------------------------------------------
+# Jws: C15, C16
+
+JWS_ASSUME = ["ECDSA / Ed25519 of the Go standard library and btcec are correct (ideal signature scheme in the model)",
+              "concrete instances of each class are found by seeded rejection sampling (signatures / coordinates with a "
+              "leading zero byte occur with probability 1/256 per value)"]
+
+
+def c15(ctx):
+    ctx.level = "exploration"
+    ctx.rule = ("Jws.tla (ideal signatures): 5 key types x signature shapes (normal, r with a leading zero byte, s with a "
+                "leading zero byte) x 18 tamper classes; OnlyUntamperedVerifies is checked by TLC. For each cell the "
+                "harness signs 4 payloads (JSON, one byte, binary with zero bytes, 520 bytes) with the LIBRARY's signers "
+                "until the signature has the shape, verifies it under the matching JWK (positive control, payload "
+                "returned unchanged), then expands the class to every concrete instance: every bit of the decoded "
+                "header that changes its content, every payload byte, every signature bit, three other keys of the "
+                "same type and the mirrored point (same x), a key of each other type, 4 truncations, 5 paddings incl. "
+                "zero-extended halves, unsupported kty / crv, segment counts, bad base64url in each segment, non-JSON "
+                "headers; a header re-serialized with the same content must still verify; after every failed attempt "
+                "the matching key must verify again. evaluations counts concrete verify calls.")
+    ctx.assumptions = JWS_ASSUME
+    _, summ = ctx.tlc_pipe("MC_Jws.tla", "MC_Jws.cfg", ["jws-replay", "-kinds", "jws"], workers=4, timeout=3000,
+                           label="key type x signature shape x tamper class, expanded")
+    ctx.cov["evaluations"] += summ["extra"]["instances"]
+    ctx.cov["distinct_nontrivial"] = max(ctx.cov["distinct_nontrivial"], 2)
+
+    def wrong(rec):
+        rec["c"] = {"kind": "jws", "kt": "p256", "shape": "normal", "tamper": "payload_byte", "mod": ""}
+        rec["expected"]["ok"] = True
+
+    ctx.negctl_replay(["jws-replay", "-kinds", "jws"], summ["_first_edge"], wrong)
+
+
+def c16(ctx):
+    ctx.level = "exploration"
+    ctx.rule = ("Jws.tla: 5 key types x coordinate shapes (normal, x with a leading zero byte, y with a leading zero byte) "
+                "x 9 modifications. The harness finds a key of the shape by rejection sampling, converts it with "
+                "pubkey.GetPublicKeyJWK and compares kty / crv / coordinates with its own fixed-width encoding, the "
+                "commitment and reveal value under both algorithms with the reference terms over that encoding, reads "
+                "the JWK back (same key), verifies a signature under it; each modification (off-curve point, x / y one "
+                "byte short - i.e. the stripped leading zero - or one byte long, empty x, wrong curve name, bad "
+                "base64url) must be refused on reading and must not verify.")
+    ctx.assumptions = JWS_ASSUME
+    _, summ = ctx.tlc_pipe("MC_Jws.tla", "MC_Jws.cfg", ["jws-replay", "-kinds", "jwk"], workers=4, timeout=3000,
+                           label="key type x coordinate shape x modification")
+
+    def wrong(rec):
+        rec["c"] = {"kind": "jwk", "kt": "p256", "shape": "x_leading_zero", "mod": "x_short", "tamper": ""}
+        rec["expected"]["ok"] = True
+
+    ctx.negctl_replay(["jws-replay", "-kinds", "jwk"], summ["_first_edge"], wrong)
+
+
 def replay(path):
     """re-execute exactly the case of a replay file against the current tree"""
     m = json.load(open(path))
@@ -693,6 +789,7 @@ CHECKS = {
     "C02": c02,
     "C03": c03,
     "C04": c04,
+    "C05": c05,
     "C06": c06,
     "C07": c07,
     "C08": c08,
@@ -701,6 +798,8 @@ CHECKS = {
     "C11": c11,
     "C13": c13,
     "C14": c14,
+    "C15": c15,
+    "C16": c16,
     "C17": c17,
     "C18": c18,
     "C12": c12,
